@@ -14,12 +14,15 @@ package main
 
 import (
 	"fmt"
+	"regexp"
+	"strconv"
 	"strings"
 	"sync"
 	"time"
 
 	"github.com/krotik/ecal/interpreter"
 	"github.com/krotik/ecal/parser"
+	"github.com/krotik/ecal/util"
 )
 
 var c14Log []string
@@ -32,8 +35,30 @@ func c14Scope() parser.Scope {
 	vs.SetValue("d", "{{x.cnt(7)}}")
 	vs.SetValue("e", "}}")
 	vs.SetValue("f", "{{")
+	// value kinds and sizes for the output step of one expression (kind OUT, corpus): text that looks like a
+	// format string, long texts, containers, numbers that print in exponent form, null, a function value
+	vs.SetValue("g", c14Long5k)
+	vs.SetValue("h", c14Long100k)
+	vs.SetValue("l", []interface{}{float64(1), "a{{b}}", []interface{}{float64(2)}})
+	vs.SetValue("m", map[interface{}]interface{}{"k": float64(1)})
+	vs.SetValue("k", float64(1000000))
+	vs.SetValue("z", nil)
+	if c14Fn == nil {
+		fvs := newGlobalScope()
+		if _, err := evalProgram("func fn(a) {\n return a\n}", fvs, &memLog{}); err == nil {
+			c14Fn, _, _ = fvs.GetValue("fn")
+		}
+	}
+	vs.SetValue("fn", c14Fn)
 	return vs
 }
+
+var (
+	c14Fn       interface{}
+	c14Long5k   = strings.Repeat("100%d of %s is 5%% {{b}} ", 200)
+	c14Long100k = strings.Repeat("0123456789abcdefghijklmnopqrstuvwxyz%v}}{{", 2500)
+	c14Put      []string
+)
 
 func c14LogStr() string {
 	if len(c14Log) == 0 {
@@ -102,6 +127,108 @@ func c14EvalAlone(code string) (repl string, lg string) {
 	return fmt.Sprint(res), c14LogStr()
 }
 
+// c14Repl is the table entry used for COMPOSITION (which expressions, in which order, once, where their
+// results go, nothing scanned twice): the replacement of one expression is taken from the real code itself,
+// by evaluating the one-expression literal "{{code}}" — possible exactly for the codes a correct
+// implementation can ever evaluate (no "}}" inside, no "}" at the end). So the label inside an error text,
+// trimming of the code, the marker character … are the code's own business here (they are not what the
+// composition clauses are about); the OUTPUT STEP of one expression (value -> text, failure -> marker +
+// error of THAT expression, every failure stage) is checked separately and independently by kind OUT.
+func c14Repl(code string) (repl string, lg string) {
+	if strings.Contains(code, "}}") || strings.HasSuffix(code, "}") {
+		return c14EvalAlone(code)
+	}
+	src := strconv.Quote("{{" + code + "}}")
+	toks := parser.LexToList("t", src)
+	if len(toks) != 2 || toks[0].ID != parser.TokenSTRING || !toks[0].AllowEscapes || toks[0].Val != "{{"+code+"}}" {
+		return c14EvalAlone(code)
+	}
+	c14Log = nil
+	defer func() {
+		if e := recover(); e != nil {
+			repl, lg = "\x00PANIC", "-"
+		}
+	}()
+	res, err := evalProgram(src, c14Scope(), &memLog{})
+	s, ok := res.(string)
+	if err != nil || !ok {
+		return c14EvalAlone(code)
+	}
+	return s, c14LogStr()
+}
+
+// c14Canon: canonical form of the outcome of ONE expression. Oracle side (independent of rt_value.go):
+// parse, validate, evaluate the code alone; a value is its fmt.Sprint text, a failure is (type, detail) of
+// the error object — no message text, label or position.
+func c14OracleOut(code string) (out string) {
+	defer func() {
+		if e := recover(); e != nil {
+			out = "P"
+		}
+	}()
+	c14Log = nil
+	res, err := evalProgramNamed("u", code, c14Scope().NewChild("x"), &memLog{})
+	if err == nil {
+		return "V " + hx(fmt.Sprint(res))
+	}
+	t, d := c14ErrParts(err)
+	return "E " + hx(t) + " " + hx(d)
+}
+
+func c14ErrParts(err error) (string, string) {
+	switch e := err.(type) {
+	case *util.RuntimeError:
+		return fmt.Sprint(e.Type), e.Detail
+	case *util.RuntimeErrorWithDetail:
+		return fmt.Sprint(e.Type), e.Detail
+	case *parser.Error:
+		return fmt.Sprint(e.Type), e.Detail
+	}
+	// other error kinds (control signals are unexported types, plain errors of accesses / imports): the text
+	// behind the unit label — this evaluation names its unit "u" — and without the trailing position
+	t := err.Error()
+	if i := strings.Index(t, "(u): "); i >= 0 {
+		t = t[i+5:]
+	}
+	return "?", c14PosRe.ReplaceAllString(t, "")
+}
+
+var c14PosRe = regexp.MustCompile(` \(Line:\d+ Pos:\d+\)$`)
+
+// c14RealOut evaluates the literal "{{code}}" with the real code and brings the result to the same form:
+// a result that starts with the (learnt) marker and is an ECAL / parse error text with the oracle's type and
+// detail is `E type detail`; anything else is the value text.
+func c14RealOut(code string, oracle string) string {
+	c14Learn()
+	src := strconv.Quote("{{" + code + "}}")
+	c14Log = nil
+	res, err := evalProgram(src, c14Scope(), &memLog{})
+	if err != nil {
+		return "ERR " + oneLine(err.Error())
+	}
+	s, ok := res.(string)
+	if !ok {
+		return fmt.Sprintf("NOTSTRING %T", res)
+	}
+	f := strings.Split(oracle, " ")
+	if f[0] == "E" && len(f) == 3 && strings.HasPrefix(s, c14Marker) {
+		t, d := unhx(f[1]), unhx(f[2])
+		body := s[len(c14Marker):]
+		if t == "?" {
+			// error kinds without (type, detail): the oracle's text must stand behind the unit label
+			b := c14PosRe.ReplaceAllString(body, "")
+			if b == d || strings.HasSuffix(b, ": "+d) {
+				return oracle
+			}
+		} else if (strings.HasPrefix(body, "ECAL error in ") || strings.HasPrefix(body, "Parse error in ")) &&
+			(strings.Contains(body, ": "+t+" ("+d+")") || (d == "" && strings.Contains(body, ": "+t))) {
+			return oracle
+		}
+		return "E? " + hx(s)
+	}
+	return "V " + hx(s)
+}
+
 // c14PayloadWith builds a payload whose table holds exactly the given expression texts (the ones the
 // generator wrote into the literal) instead of every text between some "{{" and some later "}}" — for long
 // literals, where the number of such pairs is quadratic. An expression the model decides to evaluate that
@@ -118,7 +245,7 @@ func c14PayloadWith(src string, codes []string) (string, bool) {
 			continue
 		}
 		seen[code] = true
-		repl, lg := c14EvalAlone(code)
+		repl, lg := c14Repl(code)
 		entries = append(entries, hx(code)+":"+hx(repl)+":"+lg)
 	}
 	return hx(src) + " E " + hx(toks[0].Val) + " " + strings.Join(entries, " "), true
@@ -187,7 +314,7 @@ func c14Payload(src string) (string, bool) {
 			}
 			seen[code] = true
 			if flag == "E" {
-				repl, lg := c14EvalAlone(code)
+				repl, lg := c14Repl(code)
 				entries = append(entries, hx(code)+":"+hx(repl)+":"+lg)
 			}
 		}
@@ -296,11 +423,15 @@ func init() {
 		"x.cnt(1)", "x.cnt(2)", `\\`, "\\u007b", "\\u007d", "é"}
 	forms := [][2]string{{`"`, `"`}, {`'`, `'`}, {`r"`, `"`}, {`r'`, `'`}}
 	register("C14", &Prop{
-		Timeout: 2 * time.Second,
+		Timeout: 20 * time.Second,
 		Setup: func() {
 			registerX("rec", func(args []interface{}) (interface{}, error) {
 				n, _ := args[0].(float64)
 				return c14Rec(int(n)), nil
+			})
+			registerX("put", func(args []interface{}) (interface{}, error) {
+				c14Put = append(c14Put, fmt.Sprint(args...))
+				return nil, nil
 			})
 			registerX("cnt", func(args []interface{}) (interface{}, error) {
 				c14Log = append(c14Log, fmt.Sprint(args...))
@@ -323,6 +454,8 @@ func init() {
 				`"{{f}}x.cnt(1){{e}}"`, `"{{e}}{{x.cnt(1)}}"`, `r"{{x.cnt(1)}}"`, `"{{x.cnt(1)}}"`, `"{{1+}}{{x.cnt(2)}}"`,
 				// error texts that carry markers (the operand value is printed in the message) must not be scanned again
 				`"{{1+a}}"`, `"{{a+1}}{{x.cnt(1)}}"`, `"{{raise(d)}}"`, `"{{raise(a, c, f)}}{{x.cnt(2)}}"`, `"{{1+d}}"`,
+				// control signals, Validate-stage failures, format-looking and long values stay DATA of the one expression
+				`"a{{return 5}}b"`, `"[{{1 := 2}}]"`, `"{{g}}"`, `"<{{h}}>{{x.cnt(1)}}"`, `"{{break}}{{x.cnt(2)}}"`, `'{{"100%d"}}'`,
 				// markers built by escape sequences ARE markers: the lexer unquotes first
 				"\"\\u007b\\u007bb}}\"", "\"\\u007b{b}\\u007d\"", "\"{{b\\x7d\\x7d\""} {
 				p, ok := c14Payload(s)
@@ -354,6 +487,10 @@ func init() {
 					lexRec(prefix+a, n+1)
 				}
 			}
+			for _, s := range []string{`'it\'s'`, `"it\'s"`, `'say \"hi\"'`, `"say \"hi\""`, `'a\'{{b}}'`, `'\''`, `"\'"`} {
+				g.Count("kind LEX corpus")
+				g.Emit("LEX " + hx(s))
+			}
 			lexRec("", 0)
 			for i := 0; i < nLex; i++ {
 				var sb strings.Builder
@@ -367,6 +504,52 @@ func init() {
 				}
 				g.Count("kind LEX")
 				g.Emit("LEX " + hx(f[0]+sb.String()+f[1]+tail))
+			}
+			// the OUTPUT STEP of one expression, against an independent evaluation (kind OUT): value kinds and sizes,
+			// every failure stage (parser, Validate, Eval, control signals, raise, import)
+			outCodes := []string{"a", "b", "g", "h", "l", "m", "k", "z", "fn", "0.1+0.2", "1/3", "k*k", "-0", "true", "null",
+				`"100%d"`, `"%s%s%n"`, `[1, "a", [2]]`, `{"k": 1}`, "x.cnt(3)", "g", " a ", "a  ",
+				"1 := 2", "let 1", "[a, 1] := [1, 2]", "return 1", "return", "break", "continue",
+				`raise("E1", a, [1])`, `raise(a, e, f)`, "raise(d)", `raise("%d")`, "1+", "nope + 1", `1 + "a"`, `1 + "%d"`,
+				`import "nofile" as q`, "fn(", "a[", "", " ", "x.nope()", "for i in 1 {}", "if 1 {", "sink s kindmatch 1 {}",
+				"a.b.c", "l[9]", "m.zz", "fn(1, 2, 3)", "len()", "len(1)"}
+			for _, c := range outCodes {
+				if strings.Contains(c, "}}") {
+					continue // no literal can hold an expression that contains the closing marker
+				}
+				if strings.HasSuffix(c, "}") {
+					c += " " // … nor one that ends in `}`: write it with a blank behind
+				}
+				o := c14OracleOut(c)
+				g.Count("kind OUT " + o[:1])
+				g.Emit("OUT " + hx(c) + " " + o)
+			}
+			// the literal in CONTEXT (kind CTX): inside a function (parameter, local holding marker-laden text),
+			// inside a loop body — the expressions must see the variables of the place where the literal stands
+			ctxLits := []string{"<{{p}}>", "{{q}}{{p}}", "{{a}}|{{p}}|{{q}}", "{{x.cnt(p)}}{{p}}{{x.cnt(p)}}", "}}{{p}}{{", "{{p}}{{q}}{{a}}{{x.cnt(p)}}"}
+			for _, lit := range ctxLits {
+				args := []string{"42", `r"s{{b}}"`, `"}}"`}
+				vals := []string{"42", "s{{b}}", "}}"}
+				prog := "func g(p) {\n let q := \"Q{{\"\n x.put(\"" + lit + "\")\n}\n"
+				var tabs []string
+				for j, a := range args {
+					prog += "g(" + a + ")\n"
+					tabs = append(tabs, strings.Join([]string{
+						hx("p") + ":" + hx(vals[j]) + ":-", hx("q") + ":" + hx("Q{{") + ":-", hx("a") + ":" + hx("{{b}}") + ":-",
+						hx("x.cnt(p)") + ":" + hx("c"+vals[j]) + ":" + hx(vals[j])}, ","))
+				}
+				g.Count("kind CTX function")
+				g.Emit("CTX " + hx(prog) + " " + hx(lit) + " " + strings.Join(tabs, "|"))
+				loopLit := strings.NewReplacer("p", "i", "q", "(i*2)").Replace(lit)
+				prog = "for i in range(1, 3) {\n x.put(\"" + loopLit + "\")\n}\n"
+				tabs = nil
+				for i := 1; i <= 3; i++ {
+					tabs = append(tabs, strings.Join([]string{
+						hx("i") + ":" + hx(fmt.Sprint(i)) + ":-", hx("(i*2)") + ":" + hx(fmt.Sprint(2*i)) + ":-", hx("a") + ":" + hx("{{b}}") + ":-",
+						hx("x.cnt(i)") + ":" + hx("c"+fmt.Sprint(i)) + ":" + hx(fmt.Sprint(i))}, ","))
+				}
+				g.Count("kind CTX loop")
+				g.Emit("CTX " + hx(prog) + " " + hx(loopLit) + " " + strings.Join(tabs, "|"))
 			}
 			// size scaling: literals with up to 300 expressions / ~8 KB ("replaces EACH {{expr}}": an iteration cap,
 			// a length threshold or a buffer that is reused past some size shows only here). Expression i is
@@ -401,7 +584,7 @@ func init() {
 				}
 			}
 			// stateful expressions: the expressions of one literal assign and read (kind ST)
-			stExprs := []string{"v := v + 1", "v", "x.cnt(v)", "w := v", "w"}
+			stExprs := []string{"v := v + 1", "v", "x.cnt(v)", "v := v + 2"}
 			stText := []string{"<", " ", "é", ""}
 			var stRec func(prefix string, n int)
 			stRec = func(prefix string, n int) {
@@ -533,6 +716,18 @@ func init() {
 			}
 			if strings.HasPrefix(payload, "ST ") {
 				return c14RunStateful(payload)
+			}
+			if strings.HasPrefix(payload, "OUT ") {
+				f := strings.SplitN(payload, " ", 3)
+				return c14RealOut(unhx(f[1]), f[2])
+			}
+			if strings.HasPrefix(payload, "CTX ") {
+				f := strings.Split(payload, " ")
+				c14Log, c14Put = nil, nil
+				if _, err := evalProgram(unhx(f[1]), c14Scope(), &memLog{}); err != nil {
+					return "ERR " + oneLine(err.Error())
+				}
+				return hx(strings.Join(c14Put, "|")+"|") + " " + c14LogStr()
 			}
 			src := unhx(strings.SplitN(payload, " ", 2)[0])
 			c14Log = nil
